@@ -14,6 +14,13 @@ import (
 
 type specAbort struct{ why string }
 
+// storeRec logs a store executed by the frame under if-conversion (stores of both arms are merged with ite).
+type storeRec struct {
+	p   *Value
+	old Value
+	t   types.Type
+}
+
 type fnInfo struct {
 	ipdom map[*ssa.BasicBlock]*ssa.BasicBlock
 }
@@ -270,6 +277,16 @@ func (e *Exec) tryIfConvert(fr *frame, c *Term) (ok bool) {
 			}
 		}
 	}()
+	if !e.convertInFrame(fr, c) {
+		return false
+	}
+	e.res.IfConv++
+	return true
+}
+
+// convertInFrame converts the branch ending fr.block and positions the frame at the join block with phis bound.
+func (e *Exec) convertInFrame(fr *frame, c *Term) bool {
+	blk := fr.block
 	J, vals := e.convertAt(fr, blk, c)
 	if J == nil {
 		return false
@@ -286,7 +303,6 @@ func (e *Exec) tryIfConvert(fr *frame, c *Term) (ok bool) {
 	fr.prevBlock = blk
 	fr.block = J
 	fr.phisDone = true
-	e.res.IfConv++
 	return true
 }
 
@@ -300,10 +316,69 @@ func (e *Exec) convertAt(fr *frame, blk *ssa.BasicBlock, c *Term) (*ssa.BasicBlo
 		}
 		return nil, nil
 	}
+	outerLog, outerFrame := e.specLog, e.specFrame
+	e.specFrame = fr
 	e.spec++
-	v1 := e.specRun(fr, blk, blk.Succs[0], J)
-	v2 := e.specRun(fr, blk, blk.Succs[1], J)
+	olds := map[*Value]Value{}
+	typs := map[*Value]types.Type{}
+	var order []*Value
+	var curLog *[]storeRec
+	defer func() {
+		if r := recover(); r != nil {
+			// undo the stores of an interrupted arm before falling back to forking
+			if curLog != nil {
+				for i := len(*curLog) - 1; i >= 0; i-- {
+					*(*curLog)[i].p = (*curLog)[i].old
+				}
+			}
+			for p, v := range olds {
+				*p = v
+			}
+			e.specLog, e.specFrame = outerLog, outerFrame
+			panic(r)
+		}
+	}()
+	runArm := func(start *ssa.BasicBlock) ([]Value, map[*Value]Value) {
+		var log []storeRec
+		e.specLog = &log
+		curLog = &log
+		v := e.specRun(fr, blk, start, J)
+		finals := map[*Value]Value{}
+		for _, r := range log {
+			if _, seen := olds[r.p]; !seen {
+				olds[r.p] = r.old
+				typs[r.p] = r.t
+				order = append(order, r.p)
+			}
+		}
+		for _, r := range log {
+			finals[r.p] = *r.p
+		}
+		for _, r := range log {
+			*r.p = olds[r.p]
+		}
+		curLog = nil
+		return v, finals
+	}
+	v1, f1 := runArm(blk.Succs[0])
+	v2, f2 := runArm(blk.Succs[1])
 	e.spec--
+	e.specLog, e.specFrame = outerLog, outerFrame
+	for _, p := range order {
+		a, ok := f1[p]
+		if !ok {
+			a = olds[p]
+		}
+		b, ok := f2[p]
+		if !ok {
+			b = olds[p]
+		}
+		m := e.mergeVal(c, a, b, typs[p])
+		if outerLog != nil {
+			*outerLog = append(*outerLog, storeRec{p: p, old: *p, t: typs[p]})
+		}
+		*p = m
+	}
 	vals := make([]Value, len(v1))
 	k := 0
 	for _, in := range J.Instrs {
